@@ -1284,6 +1284,33 @@ func genExits(repo, out string) {
 		})
 	}
 	g.def("dialerOnlyInsideOnce", "Bool", fmt.Sprint(dialInOnce && !dialOutside))
+	// the three places that publish a freshly parsed region object through regions.put: every call
+	// in source order (the Lean side checks that `reg.MarkUnavailable` comes first)
+	var sites []string
+	for _, name := range []string{"findRegion", "findAllRegions", "establishRegion"} {
+		fd := findMethod(f, "client", name)
+		if fd == nil {
+			g.fail(name + " missing")
+			continue
+		}
+		var calls []string
+		ast.Inspect(fd.Body, func(n ast.Node) bool {
+			if c, ok := n.(*ast.CallExpr); ok {
+				switch fn := c.Fun.(type) {
+				case *ast.SelectorExpr:
+					calls = append(calls, exprStr(fn.X)+"."+fn.Sel.Name)
+				case *ast.Ident:
+					calls = append(calls, fn.Name)
+				}
+				if exprStr(c.Fun) == "c.regions.put" && len(c.Args) == 1 {
+					calls[len(calls)-1] += "(" + exprStr(c.Args[0]) + ")"
+				}
+			}
+			return true
+		})
+		sites = append(sites, fmt.Sprintf("(%s, %s)", leanStr(name), leanList(calls)))
+	}
+	g.def("publishSites", "List (String × List String)", "[\n  "+strings.Join(sites, ",\n  ")+"]")
 	g.finish(out)
 }
 
